@@ -414,3 +414,31 @@ End Typed.
 (* the generated table (plus the two OS-level sharing edges) is acyclic: computation *)
 Lemma keep_edges_acyclic : acyclicb keep_edges = true.
 Proof. vm_compute. reflexivity. Qed.
+
+(* the statements in the argument order of props/C17.v *)
+Lemma any_order_thm : forall (edges : list (nat * nat)), acyclicb edges = true ->
+  forall (g : inst) (H order : list nat), wf_instb edges g H = true -> Permutation order H ->
+  exists s, run_all edges g order (init g H) = Done s /\
+    (forall x, x < nobjs g -> alive s x = false) /\
+    Permutation (rev (flog s)) (seq 0 (nobjs g)) /\
+    fin_order_ok g (rev (flog s)) /\
+    Permutation (removed g s) (filter transient (created g)).
+Proof. intros edges Hac g H order Hwf Hp. exact (typed_any_order edges Hac g H Hwf order Hp). Qed.
+
+Lemma any_order_generated : forall (g : inst) (H order : list nat),
+  wf_instb keep_edges g H = true -> Permutation order H ->
+  exists s, run_all keep_edges g order (init g H) = Done s /\
+    (forall x, x < nobjs g -> alive s x = false) /\
+    Permutation (rev (flog s)) (seq 0 (nobjs g)) /\
+    fin_order_ok g (rev (flog s)) /\
+    Permutation (removed g s) (filter transient (created g)).
+Proof. exact (any_order_thm keep_edges keep_edges_acyclic). Qed.
+
+Lemma survivors_thm : forall (edges : list (nat * nat)), acyclicb edges = true ->
+  forall (g : inst) (H pre post : list nat), wf_instb edges g H = true -> Permutation (pre ++ post) H ->
+  exists s, run_all edges g pre (init g H) = Done s /\
+    (forall h, In h post -> alive s h = true) /\
+    (forall p k, p < nobjs g -> alive s p = true -> In k (keeps g p) -> alive s k = true) /\
+    (forall x, x < nobjs g -> alive s x = true -> ~ In x (flog s)) /\
+    fin_order_ok g (rev (flog s)).
+Proof. intros edges Hac g H pre post Hwf Hp. exact (typed_survivors edges Hac g H Hwf pre post Hp). Qed.
